@@ -132,7 +132,7 @@ class World:
         """end of the simulated process: run the atexit callbacks (sharded accessors flush there)"""
         self.env.run_atexit()
 
-    def read_scale(self, url, info, scale_index=0, options=None):
+    def read_scale(self, url, info, scale_index=0, options=None, cs_index=0):
         """Read every chunk of a scale with a fresh accessor; returns object array (C,Z,Y,X) of elements
         (None where a chunk is missing) and the dtype."""
         acc = self.accessor(url, options)
@@ -140,7 +140,7 @@ class World:
         sc = io.info["scales"][scale_index]
         X, Y, Z = sc["size"]
         C = io.info["num_channels"]
-        cs = sc["chunk_sizes"][0]
+        cs = sc["chunk_sizes"][cs_index]
         out = real_np.empty((C, Z, Y, X), dtype=object)
         problems = []
         for x0 in range(0, X, cs[0]):
